@@ -21,6 +21,7 @@ def scriptHandler : Handler
       (expectOutcome "state" (m.map stateDump) (o "state")).and <|
       (expectOutcome "dump" dump (o "dump")).and <|
       (expectOutcome "dump-down" dumpDown (o "dumpDown")).and <|
+      (expectOutcome "state-after-outputs" (do let (x2, _) ← r2; pure (stateDump x2)) (o "stateAfterOutputs")).and <|
       (expectOutcome "hash" (do let x ← m; let h ← x.hashValue g; pure (toString h)) (o "hash"))
     -- properties on the implementation's observations
     let props : Verdict :=
@@ -48,6 +49,8 @@ def scriptHandler : Handler
           match ["err", "state", "dump", "dumpDown", "hash", "errSplit", "errSplit2", "reject"].find? (fun k => isPanic (o k)) with
           | some k => throw s!"panic in {k}: {o k}"
           | none => pure ()
+        (judge "C08" none (check (o "stateAfterOutputs" == o "state" || isPanic (o "dump") || isPanic (o "dumpDown"))
+          "StringUp / StringDown / HashValue changed the loaded model")).and <|
         (judge "C05" region (fidelity true)).and <|
         (judge "C05" (region.map (· ++ "/split")) split).and <|
         (judge "C05" none reject).and <|
